@@ -139,6 +139,7 @@ def run(ctx):
             exp_rc = 1 if mfailed else 0
             if got != exp or p.returncode != exp_rc or mpending:
                 bad.append((args, rl, got, exp, p.returncode, exp_rc))
+        root_directory(ctx, forest)
         ctx.sample({"example_command": "find ROOT -sorted -type f -execdir fuv record fixed {} + -name Q -quit", "stack_limit": 262144})
         for args, rl, got, exp, rc, exp_rc in bad[:2]:
             first = next(((i, a, b) for i, (a, b) in enumerate(zip(got + [None], exp + [None])) if a != b), None)
@@ -156,6 +157,31 @@ def run(ctx):
                            "explain": "C08_run fixes the invocations of the model (each reached path once, in order, single directory per -execdir run, nothing pending, exit status)"})
     finally:
         forest.close()
+
+
+def root_directory(ctx, forest):
+    """-execdir ... {} + on the starting point "/" (an entry without a parent directory): run, from "/", not dropped and not merged
+    into the batch of the next starting point"""
+    os.mkdir(os.path.join(forest.dir, b"rt"))
+    for args, want in (([b"/", b"-maxdepth", b"0"], [(b"/", [b"/"])]),
+                       ([b"rt", b"/", b"-maxdepth", b"0"], [(forest.dir, [b"./rt"]), (b"/", [b"/"])]),
+                       ([b"/", b"rt", b"-maxdepth", b"0"], [(b"/", [b"/"]), (forest.dir, [b"./rt"])])):
+        rec = os.path.join(forest.dir, b"recroot")
+        if os.path.exists(rec):
+            os.remove(rec)
+        env = dict(xc.ENV, FUV_RECORD=rec.decode())
+        p = subprocess.run([fw.FIND.encode()] + args + [b"-execdir", fw.FUV.encode(), b"record", b"{}", b"+"], stdout=subprocess.DEVNULL,
+                           stderr=subprocess.DEVNULL, cwd=forest.dir, env=env, timeout=60)
+        got = []
+        if os.path.exists(rec):
+            for line in open(rec):
+                parts = line.split()
+                got.append((os.path.normpath(fw.unhex(parts[0])), [fw.unhex(x) for x in parts[1:]]))
+        ctx.count(("root-directory", tuple(args)), True, "root-directory")
+        if got != [(os.path.normpath(c), a) for c, a in want] or p.returncode != 0:
+            ctx.violation("find %s -execdir CMD {} +: invocations %r (exit %d); expected %r" % (b" ".join(args).decode(), got, p.returncode, want),
+                          {"property": "C08", "kind": "root-directory", "find_args": [a.decode() for a in args], "exit": p.returncode,
+                           "invocations": [[c.decode(), [x.decode() for x in a]] for c, a in got]})
 
 
 def replay(ctx, rep):
